@@ -22,8 +22,8 @@ func run(t *testing.T, prop string, x any, cfg simrt.Config) *eng.Outcome {
 	sc := x.(*Scn)
 	res, obs := execScn(t, sc, cfg)
 	var mod *Model
-	switch prop {
-	case "C05", "C11", "C20":
+	switch {
+	case prop == "C05" || prop == "C11" || prop == "C20", prop == "C06" && sc.Ctx.Kind == "cancel":
 		// these oracles relate the log to the uncancelled run
 		mod = runModelUncancelled(sc)
 	default:
